@@ -81,7 +81,18 @@ func (Engine) Execute(t *testing.T, cfg simkit.RunConfig, scenario any) *simkit.
 	}
 	var res *simkit.RunResult
 	if sc.Kind == "sched" {
-		res = executeSched(cfg, sc, hooked)
+		// first with a scheduler goroutine that survives a panic of the library; if that
+		// run is clean, the same scenario again with the real constructor NewScheduler
+		res = executeSched(cfg, sc, hooked, true)
+		if len(res.Violations) == 0 {
+			r2 := executeSched(cfg, sc, hooked, false)
+			if r2.SchedHash != res.SchedHash && len(r2.Violations) == 0 {
+				r2.Violations = append(r2.Violations, simkit.Violation{Property: "C17", Class: "constructor-divergence", Sig: "trace",
+					Detail: "the same scenario and picks gave different step histories with NewScheduler and with the shim's copy of it:\n" + strings.Join(res.Trace, "\n") + "\n--- NewScheduler ---\n" + strings.Join(r2.Trace, "\n")})
+				r2.Log = r2.Trace
+			}
+			res = r2
+		}
 	} else {
 		res = executeDirect(cfg, sc)
 	}
